@@ -10,6 +10,7 @@ import TrionModel.Driver.Scope
 import TrionModel.Driver.Tridas
 import TrionModel.Driver.Front
 import TrionModel.Driver.Simp
+import TrionModel.Driver.Asm
 import TrionModel.Driver.Codec
 /-! `trion-model`: one request per line on stdin, one reply per line on stdout.
 The first word selects the component; every request is self-contained (pure). -/
@@ -28,6 +29,7 @@ def dispatch : List String → String
   | "tridas" :: r => Tridas.handle r
   | "front" :: r => Front.handle r
   | "simp" :: r => Simp.handle r
+  | "asm" :: r => Asm.handle r
   | "codec" :: r => Codec.handle r
   | ["ping"] => "pong"
   | _ => "bad-op"
